@@ -94,6 +94,7 @@ fn main() {
             code
         }
         Some("big32") => big32(),
+        Some("big32-conc") => big32_conc(),
         Some("bighist") => {
             let seed: u64 = arg(&args, "--seed").unwrap_or("20261003").parse().unwrap();
             let from: u64 = arg(&args, "--from").unwrap_or("0").parse().unwrap();
@@ -331,5 +332,54 @@ fn bighist(seed: u64, index: u64, steps: usize) -> i32 {
             }
         }
     }
+    0
+}
+
+/// Two threads, each with its own handle on one > 16 MiB buffer (on 32-bit targets the length is
+/// stored inside the shared block): `truncate`/`pop` on such a handle must copy while the buffer is
+/// shared, so they race with the other owner's drop / mutation unless the reference is held during
+/// the copy. Run under Miri many-seeds on i686.
+fn big32_conc() -> i32 {
+    use lean_string::LeanString;
+    const N: usize = (1 << 24) + 64;
+    let model = "ab".repeat(N / 2);
+    for variant in 0..4 {
+        let a = LeanString::from(model.as_str());
+        let b = a.clone();
+        let m2 = model.clone();
+        let t = std::thread::spawn(move || {
+            let mut b = b;
+            match variant {
+                0 => drop(b),
+                1 => {
+                    assert_eq!(b.pop(), Some('b'));
+                    assert!(b.len() == N - 1 && b.as_bytes() == &m2.as_bytes()[..N - 1]);
+                }
+                2 => {
+                    b.truncate(N - 7);
+                    b.push('!');
+                    assert!(b.len() == N - 6 && b.as_bytes()[..N - 7] == m2.as_bytes()[..N - 7]);
+                }
+                _ => {
+                    let c = b.clone();
+                    drop(b);
+                    assert!(c.as_bytes() == m2.as_bytes());
+                }
+            }
+        });
+        let mut a = a;
+        a.truncate(N - 3);
+        if a.len() != N - 3 || a.as_bytes() != &model.as_bytes()[..N - 3] {
+            println!("VIOLATION-DETAIL {{\"invariant\":\"big32_conc_mismatch\",\"detail\":\"variant {variant}\"}}");
+            return 1;
+        }
+        a.push_str("xy");
+        t.join().unwrap();
+        if a.len() != N - 1 || !a.as_bytes().ends_with(b"xy") {
+            println!("VIOLATION-DETAIL {{\"invariant\":\"big32_conc_mismatch\",\"detail\":\"variant {variant} after join\"}}");
+            return 1;
+        }
+    }
+    println!("big32-conc ok");
     0
 }
